@@ -150,11 +150,15 @@ def programs():
                     variants=("cb", "vd", "ref"))
     # 5. const contexts
     for n in (0, 1, 4):
-        for tname, ty in (("u32", "u32"), ("string", "String"), ("str", "&'static str")):
+        for tname, ty in (("u32", "u32"), ("string", "String"), ("str", "&'static str"), ("unit", "()"), ("zst_struct", "Zst"), ("big", "[u64; 64]")):
             add(f"const_static_{n}_{tname}", "const", f"static S: Buf<{ty}> = Buf::new();\n", "accept", n=n)
             add(f"const_const_{n}_{tname}", "const", f"const C: Buf<{ty}> = Buf::new();\nfn f() -> usize {{ C.len() }}\n", "accept", n=n)
             add(f"const_fn_{n}_{tname}", "const", f"const fn mk() -> Buf<{ty}> {{ Buf::new() }}\nstatic S: Buf<{ty}> = mk();\n", "accept", n=n)
             add(f"const_inline_repeat_{n}_{tname}", "const", f"fn f() -> [Buf<{ty}>; 3] {{ [const {{ Buf::<{ty}>::new() }}; 3] }}\n", "accept", n=n)
+    # new() / default() / collect() must also be usable in ordinary code for every element type and capacity
+    for n in (0, 1, 4, 1000):
+        for tname, ty in (("unit", "()"), ("zst_struct", "Zst"), ("u8", "u8"), ("big", "[u64; 64]")):
+            add(f"construct_{n}_{tname}", "const", f"pub fn f() -> usize {{\n    let b: Buf<{ty}> = Buf::new();\n    let d: Buf<{ty}> = Default::default();\n    b.len() + d.len()\n}}\n", "accept", n=n)
     # 6. bound-free impls
     add("impl_iter_clone_without_t_clone", "bound-free", "struct NoTraits;\nfn f(it: It<'_, NoTraits>) -> It<'_, NoTraits> { it.clone() }\n", "accept")
     add("impl_iter_default_without_bounds", "bound-free", "struct NoTraits;\nfn f<'a>() -> It<'a, NoTraits> { Default::default() }\n", "accept")
@@ -166,12 +170,16 @@ def programs():
 
 def source(prog, variant):
     head = {"cb": HEAD_CB, "vd": HEAD_VD, "ref": HEAD_REF}[variant].replace("{N}", str(prog["n"]))
-    return head + "\n" + prog["body"]
+    extra = "pub struct Zst;\n" if "Zst" in prog["body"] else ""
+    return head + "\n" + extra + prog["body"]
 
 
 def compile_one(args):
     path, rlib, deps = args
-    cmd = ["rustc", "--edition", "2021", "--crate-type", "lib", "--crate-name", "witness", "--emit=metadata", "--error-format=json", "-o", path[:-3] + ".rmeta",
+    # programs about const-ness / construction are compiled down to object code, so that errors which only
+    # appear when the generic code is instantiated for the element type (post-monomorphisation) are seen too
+    full = "/const_" in path or "/construct_" in path or "replay_const" in path or "replay_construct" in path
+    cmd = ["rustc", "--edition", "2021", "--crate-type", "lib", "--crate-name", "witness", "--emit=obj" if full else "--emit=metadata", "--error-format=json", "-o", path[:-3] + (".o" if full else ".rmeta"),
            "--extern", f"circular_buffer={rlib}", "-L", f"dependency={deps}", "--cap-lints", "allow", path]
     p = subprocess.run(cmd, stdout=subprocess.PIPE, stderr=subprocess.PIPE, text=True)
     errs = []
